@@ -181,3 +181,81 @@ func VerifGradeGlue() {
 		}
 	}
 }
+
+// vrtValidatingSPRGrader admits a record exactly when the dependency's own record validation
+// (graderStake.ValidateS2/S3; ideal-signature model under the symbolic engine) accepts it.
+type vrtValidatingSPRGrader struct {
+	vrtSPRGrader
+	admitted [][][]byte
+}
+
+func (g *vrtValidatingSPRGrader) AddSPR(entryhash []byte, extids [][]byte, content []byte) error {
+	g.added = append(g.added, extids)
+	if !vrt.ValidateSPR(g.version, g.height, entryhash, extids, content) {
+		return vrtErrInvalidSPR
+	}
+	g.admitted = append(g.admitted, extids)
+	return nil
+}
+
+type vrtErr string
+
+func (e vrtErr) Error() string { return string(e) }
+
+const vrtErrInvalidSPR = vrtErr("invalid staking record")
+
+// VerifStakerBinding: C11 "staking records not signed by the key of one of the top PEG holders
+// pay nothing". One staking record reaches the real GradeS; it names a staker id and is signed
+// by a key. It may enter the graded set only if the NAMED staker is a top holder AND the record
+// is signed by THAT holder's key.
+func VerifStakerBinding() {
+	d, db := vrtNode(false)
+	ctx := context.Background()
+	height := uint32(vrt.Range("height", int64(specSprSig), 400000)) // staking records are signed from here on
+	holder := vrt.KeyAddress(0, false)                                // a top holder; key 0 is its key
+	nobody := vrt.KeyAddress(1, false)                                // holds no PEG; key 1 is its key
+	tx0, _ := db.Begin()
+	vrtSetBalance(tx0, holder, fat2.PTickerPEG, vrt.URange("peg", 1, vrtMaxBal/4))
+	vrtSetBalance(tx0, nobody, fat2.PTickerPEG, 0)
+	if err := tx0.Commit(); err != nil {
+		panic(err)
+	}
+	declaredHolder := vrt.Choose("declares", 2) == 0 // which address the record names as its staker
+	signer := vrt.Choose("signedBy", 2)              // which key signs it
+	declared := holder
+	if !declaredHolder {
+		declared = nobody
+	}
+	chain := config.SPRChain
+	eb := new(factom.EBlock)
+	eb.ChainID = &chain
+	eb.Height = height
+	eb.Timestamp = time.Unix(1600000000, 0)
+	var e factom.Entry
+	e.ChainID = &chain
+	e.Hash = vrtHash(0x5A)
+	vrt.MakeSPR(&e, vrtSpecSPRVersion(height), int32(height), declared[:], signer, nobody.String())
+	eb.Entries = []factom.Entry{e}
+	sg := new(vrtValidatingSPRGrader)
+	vrt.Stub(fxNewGraderS, func(version uint8, h int32) (graderStake.BlockGrader, error) {
+		sg.version, sg.height = version, h
+		return sg, nil
+	})
+	_, err := d.GradeS(ctx, eb)
+	vrt.Assert("C11.staking-grading-glue-succeeds", err == nil)
+	byHolderKey := declaredHolder && signer == 0
+	switch {
+	case byHolderKey:
+		vrt.Cover("holder-signed")
+		vrt.Assert("C11.record-signed-by-a-top-holders-key-is-graded", len(sg.admitted) == 1)
+	case declaredHolder:
+		// Known finding D17: the declared staker id (ExtIDs[1]) is only looked up in the top-100
+		// list; the signature is verified against the public key embedded in ExtIDs[2], and
+		// nothing ties that key to the declared id. Anyone can name a top holder.
+		vrt.Cover("names-a-holder-signed-by-another-key")
+		vrt.Assert("C11.record-not-signed-by-a-top-holders-key-is-not-graded@D17", len(sg.admitted) == 0)
+	default:
+		vrt.Cover("names-no-holder")
+		vrt.Assert("C11.record-not-signed-by-a-top-holders-key-is-not-graded", len(sg.admitted) == 0 && len(sg.added) == 0)
+	}
+}
